@@ -783,5 +783,6 @@ META = {
             "shared-object check uses gcc/ld/nm on the host with -fPIC -fvisibility=hidden -DA_EXPORTS as in CMakeLists.txt "
             "(set_library_compile / set_library_options), not the CMake build itself. No axioms.",
     "technique": "Rocq proof by reflection (sound boolean checker, vm_compute on declarations regenerated from the sources by a "
-                 "translator, per data model); differential checks against compilers (cross-target front ends, exported symbols)",
+                 "translator, per data model); differential checks against compilers (cross-target front ends, exported symbols, "
+                 "scalar typedefs of a/a.h in every language mode gnu89 / c99 / c11 / c2x / c++11)",
 }
